@@ -233,10 +233,17 @@ fn classify_open_failure(rec: &Recovered, img: &Image, final_written: &BTreeMap<
                 let nums: Vec<u64> = rest.split(';').next().unwrap_or("").split("->").filter_map(parse_padded).collect();
                 if nums.len() == 2 {
                     let y = nums[1];
+                    // The known finding covers only a hole before a chunk that holds at least its complete
+                    // head record: a newest chunk without a complete record is discarded by recovery, so a
+                    // gap reported in front of such a chunk is a different failure.
+                    let y_has_head = img.iter().find(|(c, _)| *c == y).map(|(_, b)| !refcodec::parse_file(b).recs.is_empty()).unwrap_or(false);
                     if let Some((pid, _)) = img.iter().filter(|(c, _)| *c < y).last() {
-                        if hole_is_unwritten_tail(img, *pid, y, final_written) {
+                        if y_has_head && hole_is_unwritten_tail(img, *pid, y, final_written) {
                             return "open_err:hole_left_by_unwritten_chunk_tail".into();
                         }
+                    }
+                    if !y_has_head {
+                        return "open_err:gap_in_front_of_chunk_without_complete_record".into();
                     }
                 }
                 return "open_err:gap".into();
